@@ -208,7 +208,26 @@ func (s *ldapService) SetChannel(c pushers.Channel) {
 	s.c = c
 }
 
+// session returns the service state for one connection: the configuration
+// is shared, the connection, the login, the TLS request and the handlers
+// bound to them are its own.
+func (s *ldapService) session() *ldapService {
+	c := &ldapService{
+		Server: s.Server,
+		c:      s.c,
+	}
+
+	c.Handlers = make([]requestHandler, 0, 4)
+	c.setHandlers()
+
+	return c
+}
+
 func (s *ldapService) Handle(ctx context.Context, conn net.Conn) error {
+	// connections are handled concurrently: none of them may keep its
+	// state in the shared service object
+	s = s.session()
+
 	s.wantTLS = false
 
 	s.login = "" // set the anonymous authstate
